@@ -6,6 +6,7 @@ Driver for C08 (Dijkstra distances, cell matrices).  Parsing, adjacency construc
 run used for the statistics and the Bellman-Ford oracle are shared with the C09 driver.
 
 ops:   G <n> <static|dyn|dynins> | E u v w | Q uni s t | Q o2m s t1 t2 …
+       R <k>                                             after a Q line: the same query k more times, unobserved
        PG <n> | PE u:v:w … | PQ uni s t | PQ o2m s t…    pre-history: the reused search objects first answer these
                                                           queries on ANOTHER static graph (results unobserved)
        CELL | IN ids… | OUT ids… | E u v w
@@ -64,6 +65,9 @@ def parseCase (ops : Array String) : GCase := Id.run do
   let mut pqs : Array Query := #[]
   for l in ops do
     match words l with
+    | ["R", _] => pure ()   -- `R k`: the query above is run k more times on the reused objects, unobserved; the
+                            -- reused model object has the same state after one run as after k+1
+                            -- (theorem Props.C08.reuse_eq_fresh), so the model skips the repetitions
     | ["PG", n] => c := { c with preN := parseNat! n }
     | "PE" :: items =>
       for it in items do
